@@ -135,8 +135,8 @@ func runC13(args []string) error {
 					es = append(es, e)
 					ents = append(ents, dbsm.Entry{Index: e.idx, Cmd: mustJSON(kv.Update{Op: e.op, KVPair: kv.Pair{Key: e.key, Value: e.val, Ver: e.ver}})})
 					hop.Inc(e.op)
-					// oracle
-					if ok && cur.Ver != e.ver {
+					// oracle: the supplied version must be the current one; a key that does not exist has version 0
+					if (ok && cur.Ver != e.ver) || (!ok && e.ver != 0) {
 						mism++
 					} else {
 						switch e.op {
